@@ -51,6 +51,20 @@ var out *bufio.Writer
 
 // ------------------------------------------------------------------ helpers
 
+// extsFor: the strategy extension, on some requests behind one of gNMI's well-known extensions (master arbitration, history),
+// which the server has no use for and must step over
+func extsFor(r *rand.Rand, sync bool) []*gnmi_ext.Extension {
+	xs := []*gnmi_ext.Extension{}
+	switch r.Intn(5) {
+	case 0:
+		xs = append(xs, &gnmi_ext.Extension{Ext: &gnmi_ext.Extension_MasterArbitration{
+			MasterArbitration: &gnmi_ext.MasterArbitration{ElectionId: &gnmi_ext.Uint128{Low: 1}}}})
+	case 1:
+		xs = append(xs, &gnmi_ext.Extension{Ext: &gnmi_ext.Extension_History{History: &gnmi_ext.History{}}})
+	}
+	return append(xs, strategyExt(sync))
+}
+
 func strategyExt(sync bool) *gnmi_ext.Extension {
 	s := configapi.TransactionStrategy_ASYNCHRONOUS
 	if sync {
@@ -177,6 +191,8 @@ type scriptStore struct {
 	mutate            []row // when non-nil, Create replaces the change values by these (what a plugin's path list could contain)
 	cancel            context.CancelFunc
 	accepted          int
+	echo              bool  // Set: an event whose scripted strategy is the one the caller asked for carries the strategy of the
+	asked             int32 // transaction the handler CREATED (what the real store would echo), not the script's copy of it
 }
 
 func (s *scriptStore) Create(ctx context.Context, tx *configapi.Transaction) error {
@@ -209,7 +225,9 @@ func (s *scriptStore) Watch(ctx context.Context, ch chan<- configapi.Transaction
 			if e.failure != nil {
 				tx.Status.Failure = &configapi.Failure{Type: configapi.Failure_Type(*e.failure), Description: "scripted"}
 			}
-			tx.TransactionStrategy.Synchronicity = configapi.TransactionStrategy_Synchronicity(e.sync)
+			if !(s.echo && e.sync == s.asked) {
+				tx.TransactionStrategy.Synchronicity = configapi.TransactionStrategy_Synchronicity(e.sync)
+			}
 			select {
 			case ch <- configapi.TransactionEvent{Type: e.etype, Transaction: tx}:
 				s.accepted++
@@ -257,6 +275,10 @@ func domLoop(r *rand.Rand, seed int64, n int, corpus string) {
 	runOne := func(id string, kind string, label string, sync bool, evs []scriptEvent, mutate []row, index uint64) {
 		ctx, cancel := context.WithCancel(context.Background())
 		st := &scriptStore{events: evs, index: index, cancel: cancel, mutate: mutate}
+		if sync {
+			st.asked = 1
+		}
+		st.echo = kind == "set"
 		evStr := "."
 		if len(evs) > 0 {
 			l := []string{}
@@ -275,7 +297,7 @@ func domLoop(r *rand.Rand, seed int64, n int, corpus string) {
 		}
 		if kind == "set" {
 			srv := nbgnmi.NewServerForVerif(e.Topo, st, e.Props, e.Cfgs, e.Registry, e.Conns, 0)
-			req := &gnmi.SetRequest{Extension: []*gnmi_ext.Extension{strategyExt(sync)}}
+			req := &gnmi.SetRequest{Extension: extsFor(r, sync)}
 			req.Update = append(req.Update, &gnmi.Update{Path: pathOf("t1", "foo"), Val: strVal("x")})
 			switch r.Intn(4) {
 			case 0:
